@@ -15,6 +15,7 @@ RULE = ('operation histories over the alphabet {FC ContinueToSend bs=0 / bs=1 / 
         'no Consecutive Frame before the first ContinueToSend; never more Consecutive Frames than the largest block size granted since the '
         'sender last waited; data frames of each request are a prefix of the extracted Coq reference segmentation; Overflow / too many '
         'Waits / N_Bs expiry -> documented error, request failed, nothing further for it; wftmax=0 Wait -> UnsupportedWaitFrameError only; '
+        'a ContinueToSend read in time is obeyed (no FlowControlTimeoutError with no data frame in between); MaximumWaitFrameReachedError only after more than wftmax Wait frames since the First Frame; '
         'after the history, with time passing, transmitting() becomes False and the next queued message is sent normally. '
         'All replayed on the extracted model.')
 ASSUME = ['termination is checked as: transmitting() is False after 14 further deadlines of idle passes (a ranking argument, not a numeric bound)']
@@ -95,8 +96,14 @@ def oracle(case, lines, insts):
     consumed = 0
     budget = 0
     INF = float('inf')
-    for op, l in zip(case['ops'], lines):
+    now = 0
+    last_data_t = None      # virtual time of the call that emitted the latest First / Consecutive Frame
+    obeyed_due = None       # (call index, time) of a full call that consumed only valid ContinueToSend frames before the deadline, nothing emitted since
+    tbs_ns = ms_to_ns(p['rx_flowcontrol_timeout'])
+    for opi, (op, l) in enumerate(zip(case['ops'], lines)):
         evs, st = split_line(l)
+        if op[1] == 'tick':
+            now += int(op[2])
         if op[1] == 'rx':
             d = unhx(op[4])[len(pfx):]
             mine = int(op[2]) == rid and int(op[3]) == int(ext) and unhx(op[4])[:len(pfx)] == pfx
@@ -115,6 +122,25 @@ def oracle(case, lines, insts):
                         granted_now = INF if item[1] == 0 else granted_now + item[1]
                 consumed += r
         budget += granted_now
+        # a ContinueToSend processed in time is obeyed: a full call that reads nothing but valid ContinueToSend frames before the deadline
+        # of the wait in progress (which runs from the emission of the latest data frame at the earliest) ends the wait - a
+        # FlowControlTimeoutError with no data frame emitted and nothing but ContinueToSend frames read since that call contradicts it
+        emitted_data = any(e.startswith('tx:') and len(unhx(e.split(':')[6])) > tplen and (unhx(e.split(':')[6])[tplen] >> 4) in (0, 1, 2) for e in evs)
+        if any(e == 'err:FlowControlTimeoutError' for e in evs) and obeyed_due is not None and not emitted_data:
+            fails.append(('C04:abandoned-although-permitted', 'FlowControlTimeoutError at op %d although the call at op %d (virtual time %d ns, deadline not before %d ns) '
+                          'read a ContinueToSend and nothing else; no data frame was emitted in between' % (opi, obeyed_due[0], obeyed_due[1], obeyed_due[2])))
+            obeyed_due = None
+        if emitted_data:
+            obeyed_due = None
+        elif op[1] == 'proc':
+            r_now = sum(int(e[6:].split(',')[0]) for e in evs if e.startswith('stats:'))
+            items = fed[consumed - r_now:consumed]
+            if any(it[0] != 'cts' for it in items):
+                obeyed_due = None       # a Wait frame may send the sender back to waiting, other frames may end the transmission
+            elif r_now and int(op[2]) == 1 and int(op[3]) == 1 and last_data_t is not None and now < last_data_t + tbs_ns and 'trans=1' in l:
+                obeyed_due = obeyed_due or (opi, now, last_data_t + tbs_ns)
+        if emitted_data:
+            last_data_t = now
         for e in evs:
             if not e.startswith('tx:'):
                 continue
@@ -157,6 +183,8 @@ def oracle(case, lines, insts):
         fails.append(('C04:request-completed-twice', str(done)))
     if 'trans=1' not in last and len(set(ids)) != nreq:
         fails.append(('C04:request-never-completed', 'completions %s for %d requests' % (done, nreq)))
+    import fcrules
+    fails += fcrules.wait_budget_fails(case, lines, 'C04:aborted-within-wait-budget')
     errs = [e[4:] for l in lines for e in split_line(l)[0] if e.startswith('err:')]
     if p.get('wftmax', 0) == 0 and 'MaximumWaitFrameReachedError' in errs:
         fails.append(('C04:wrong-abort-class', 'MaximumWaitFrameReachedError with wftmax=0'))
